@@ -1085,3 +1085,16 @@ def _model_inputs_bv(self, model):
 
 
 Engine._model_inputs = _model_inputs_bv
+
+
+def _fp_methods():
+    def fp(self, name):
+        """an arbitrary binary64 value (any bit pattern); the replay file stores the IEEE bit pattern"""
+        from . import fp as _fp
+        v = z3.FP(name, _fp.D)
+        self.inputs[name] = z3.fpToIEEEBV(v)
+        return _fp.SF(v)
+    Engine.fp = fp
+
+
+_fp_methods()
